@@ -60,6 +60,9 @@ def skeletons(nf):
        ('r', ['any', 'any']), {('d1', 1): nf})
     sk('headstruct', [(F('r', F('f', X, F('g', Y)), L(X, Y, tail=T)), conj(call('d2', X, Y), eq(T, NIL)))],
        ('r', ['any', 'any']), {('d2', 2): nf})
+    sk('alias', [(F('r', X), conj(eq(X, Y), call('d1', Y))), (F('r', X), conj(call('same', X, Y), call('d1', Y), eq(X, C(1)))),
+                 (F('same', Z, Z), TRUE)],
+       ('r', ['any']), {('d1', 1): nf})
     sk('length', [(F('len', NIL, A('z')), TRUE), (F('len', L(_(1), tail=T), F('s', N)), call('len', T, N))],
        ('len', [('fixed', L(('sym', 0), V('Q1'))), 'any']), {})
     return S
